@@ -20,8 +20,9 @@ theorem sPart_decomp : ∀ (fs : List Ty) (vs : List Val) (k o s o' : Nat) (t' :
     t'.WF ∧ Conf t' v1 ∧ o ≤ o' ∧ o' + vsize t' v1 ≤ o + s ∧
     ∃ Pre Post, sPatches fs vs o = Pre ++ shift o' (patchesD t' v1) ++ Post ∧
       Outside Post o' (o' + vsize t' v1) ∧
-      ∀ v2, Conf t' v2 → ConfFields fs (setNth vs k v2) ∧
-        sPatches fs (setNth vs k v2) o = Pre ++ shift o' (patchesD t' v2) ++ Post
+      (∀ v2, Conf t' v2 → ConfFields fs (setNth vs k v2) ∧
+        sPatches fs (setNth vs k v2) o = Pre ++ shift o' (patchesD t' v2) ++ Post) ∧
+      Outside Pre o' (o' + vsize t' v1)
  | [], _, _, _, _, _, _, _, _, _, _, h => by simp [sPart] at h
  | _ :: _, [], _, _, _, _, _, _, _, hc, _, _ => by simp [ConfFields] at hc
  | t :: ts, v :: vs, 0, o, s, o', t', v1, hw, hc, hs, h => by
@@ -34,11 +35,12 @@ theorem sPart_decomp : ∀ (fs : List Ty) (vs : List Val) (k o s o' : Nat) (t' :
       subst hs
       have hv := conf_ssize t v a hc.1 ha
       have hsl := slot_ge a
-      refine ⟨hw.1, hc.1, Nat.le_refl _, by omega, [], sPatches ts vs (o + slot a), ?_, ?_, ?_⟩
+      refine ⟨hw.1, hc.1, Nat.le_refl _, by omega, [], sPatches ts vs (o + slot a), ?_, ?_, ?_, ?_⟩
       · simp [sPatches, ha]
       · exact outside_of_within (withinS ts vs (o + slot a) b hw.2 hc.2 hb) (Or.inr (by omega))
       · intro v2 hc2
         exact ⟨⟨hc2, hc.2⟩, by simp [setNth, sPatches, ha]⟩
+      · intro p hp; simp at hp
     · simp at hs
  | t :: ts, v :: vs, k + 1, o, s, o', t', v1, hw, hc, hs, h => by
     simp only [sPart] at h
@@ -48,12 +50,15 @@ theorem sPart_decomp : ∀ (fs : List Ty) (vs : List Val) (k o s o' : Nat) (t' :
       simp only [Option.some.injEq] at hs
       subst hs
       simp only [ha, Option.getD_some] at h
-      obtain ⟨h1, h2, h3, h4, Pre, Post, h5, h6, h7⟩ := sPart_decomp ts vs k (o + slot a) b o' t' v1 hw.2 hc.2 hb h
-      refine ⟨h1, h2, by omega, by omega, shift o (patchesD t v) ++ Pre, Post, ?_, h6, ?_⟩
+      obtain ⟨h1, h2, h3, h4, Pre, Post, h5, h6, h7, h8⟩ := sPart_decomp ts vs k (o + slot a) b o' t' v1 hw.2 hc.2 hb h
+      have hv := conf_ssize t v a hc.1 ha
+      have hsl := slot_ge a
+      refine ⟨h1, h2, by omega, by omega, shift o (patchesD t v) ++ Pre, Post, ?_, h6, ?_, ?_⟩
       · simp [sPatches, ha, h5, List.append_assoc]
       · intro v2 hc2
         obtain ⟨g1, g2⟩ := h7 v2 hc2
         exact ⟨⟨hc.1, g1⟩, by simp [setNth, sPatches, ha, g2, List.append_assoc]⟩
+      · exact outside_append (outside_of_within (within_shift (d := o) (withinD t v hw.1 hc.1)) (Or.inl (by omega))) h8
     · simp at hs
 
 /-! ### dynamically sized struct -/
@@ -63,9 +68,10 @@ theorem dPart_decomp : ∀ (fs : List Ty) (vs : List Val) (k so kd dof sb o' : N
     t'.WF ∧ Conf t' v1 ∧ so ≤ o' ∧ o' + vsize t' v1 ≤ dof + dynSizes fs vs ∧
     ∃ Pre Post, dPatches fs vs so kd dof sb = Pre ++ shift o' (patchesD t' v1) ++ Post ∧
       Outside Post o' (o' + vsize t' v1) ∧
-      ∀ v2, Conf t' v2 → vsize t' v2 = vsize t' v1 → ConfFields fs (setNth vs k v2) ∧
+      (∀ v2, Conf t' v2 → vsize t' v2 = vsize t' v1 → ConfFields fs (setNth vs k v2) ∧
         dynSizes fs (setNth vs k v2) = dynSizes fs vs ∧
-        dPatches fs (setNth vs k v2) so kd dof sb = Pre ++ shift o' (patchesD t' v2) ++ Post
+        dPatches fs (setNth vs k v2) so kd dof sb = Pre ++ shift o' (patchesD t' v2) ++ Post) ∧
+      Outside Pre o' (o' + vsize t' v1) ∧ (o' + vsize t' v1 ≤ so + staticBytes fs ∨ dof ≤ o')
  | [], _, _, _, _, _, _, _, _, _, _, _, _, _, h => by simp [dPart] at h
  | _ :: _, [], _, _, _, _, _, _, _, _, _, hc, _, _, _ => by simp [ConfFields] at hc
  | t :: ts, v :: vs, k, so, kd, dof, sb, o', t', v1, hw, hc, h1, h2, h => by
@@ -82,7 +88,7 @@ theorem dPart_decomp : ∀ (fs : List Ty) (vs : List Val) (k so kd dof sb o' : N
       · subst hk
         simp only [if_true, Option.some.injEq, Prod.mk.injEq] at h
         obtain ⟨rfl, rfl, rfl⟩ := h
-        refine ⟨hw.1, hc.1, Nat.le_refl _, by rw [hv]; omega, [], dPatches ts vs (so + slot a) kd dof sb, ?_, ?_, ?_⟩
+        refine ⟨hw.1, hc.1, Nat.le_refl _, by rw [hv]; omega, [], dPatches ts vs (so + slot a) kd dof sb, ?_, ?_, ?_, ?_, ?_⟩
         · simp [dPatches, hs]
         · intro p hp
           have := regionsD ts vs (so + slot a) kd dof sb hw.2 hc.2 p hp
@@ -91,16 +97,22 @@ theorem dPart_decomp : ∀ (fs : List Ty) (vs : List Val) (k so kd dof sb o' : N
           omega
         · intro v2 hc2 _
           exact ⟨⟨hc2, hc.2⟩, by simp [setNth, hds], by simp [setNth, dPatches, hs]⟩
+        · intro p hp; simp at hp
+        · left; rw [hv, hsb]; omega
       · simp only [hk, if_false] at h
         obtain ⟨k', rfl⟩ : ∃ k', k = k' + 1 := ⟨k - 1, by omega⟩
         simp only [Nat.add_sub_cancel] at h
-        obtain ⟨g1, g2, g3, g4, Pre, Post, g5, g6, g7⟩ :=
+        obtain ⟨g1, g2, g3, g4, Pre, Post, g5, g6, g7, g8, g9⟩ :=
           dPart_decomp ts vs k' (so + slot a) kd dof sb o' t' v1 hw.2 hc.2 (by omega) (by omega) h
-        refine ⟨g1, g2, by omega, by rw [hds]; exact g4, shift so (patchesD t v) ++ Pre, Post, ?_, g6, ?_⟩
+        refine ⟨g1, g2, by omega, by rw [hds]; exact g4, shift so (patchesD t v) ++ Pre, Post, ?_, g6, ?_, ?_, ?_⟩
         · simp [dPatches, hs, g5, List.append_assoc]
         · intro v2 hc2 hsz
           obtain ⟨q1, q2, q3⟩ := g7 v2 hc2 hsz
           exact ⟨⟨hc.1, q1⟩, by simp [setNth, hds, q2], by simp [setNth, dPatches, hs, q3, List.append_assoc]⟩
+        · exact outside_append (outside_of_within (within_shift (d := so) (withinD t v hw.1 hc.1)) (Or.inl (by omega))) g8
+        · rcases g9 with g9 | g9
+          · left; rw [hsb]; omega
+          · right; exact g9
     | none =>
       simp only [hs] at h
       have hsl := slot_ge (vsize t v)
@@ -112,7 +124,7 @@ theorem dPart_decomp : ∀ (fs : List Ty) (vs : List Val) (k so kd dof sb o' : N
         simp only [if_true, Option.some.injEq, Prod.mk.injEq] at h
         obtain ⟨rfl, rfl, rfl⟩ := h
         refine ⟨hw.1, hc.1, by omega, by rw [hds]; omega,
-          (if kd = 0 then [] else [(sb + 8 * (kd - 1), le 8 dof)]), dPatches ts vs so (kd + 1) (dof + slot (vsize t v)) sb, ?_, ?_, ?_⟩
+          (if kd = 0 then [] else [(sb + 8 * (kd - 1), le 8 dof)]), dPatches ts vs so (kd + 1) (dof + slot (vsize t v)) sb, ?_, ?_, ?_, ?_, ?_⟩
         · simp [dPatches, hs, List.append_assoc]
         · intro p hp
           have := regionsD ts vs so (kd + 1) (dof + slot (vsize t v)) sb hw.2 hc.2 p hp
@@ -120,17 +132,39 @@ theorem dPart_decomp : ∀ (fs : List Ty) (vs : List Val) (k so kd dof sb o' : N
           omega
         · intro v2 hc2 hsz
           exact ⟨⟨hc2, hc.2⟩, by simp [setNth, hds, hsz], by simp [setNth, dPatches, hs, hsz, List.append_assoc]⟩
+        · intro p hp
+          by_cases hkd : kd = 0
+          · simp [hkd] at hp
+          · simp only [hkd, if_false, List.mem_singleton] at hp
+            subst hp
+            simp only [le_length]
+            left; omega
+        · right; exact Nat.le_refl _
       · simp only [hk, if_false] at h
         obtain ⟨k', rfl⟩ : ∃ k', k = k' + 1 := ⟨k - 1, by omega⟩
         simp only [Nat.add_sub_cancel] at h
-        obtain ⟨g1, g2, g3, g4, Pre, Post, g5, g6, g7⟩ :=
+        obtain ⟨g1, g2, g3, g4, Pre, Post, g5, g6, g7, g8, g9⟩ :=
           dPart_decomp ts vs k' so (kd + 1) (dof + slot (vsize t v)) sb o' t' v1 hw.2 hc.2 (by omega) (by omega) h
+        have g9' : o' + vsize t' v1 ≤ so + staticBytes ts ∨ dof + slot (vsize t v) ≤ o' := g9
         refine ⟨g1, g2, g3, by rw [hds]; omega,
-          (if kd = 0 then [] else [(sb + 8 * (kd - 1), le 8 dof)]) ++ (shift dof (patchesD t v) ++ Pre), Post, ?_, g6, ?_⟩
+          (if kd = 0 then [] else [(sb + 8 * (kd - 1), le 8 dof)]) ++ (shift dof (patchesD t v) ++ Pre), Post, ?_, g6, ?_, ?_, ?_⟩
         · simp [dPatches, hs, g5, List.append_assoc]
         · intro v2 hc2 hsz
           obtain ⟨q1, q2, q3⟩ := g7 v2 hc2 hsz
           exact ⟨⟨hc.1, q1⟩, by simp [setNth, hds, q2], by simp [setNth, dPatches, hs, q3, List.append_assoc]⟩
+        · apply outside_append
+          · intro p hp
+            by_cases hkd : kd = 0
+            · simp [hkd] at hp
+            · simp only [hkd, if_false, List.mem_singleton] at hp
+              subst hp
+              simp only [le_length]
+              omega
+          · refine outside_append (outside_of_within (within_shift (d := dof) (withinD t v hw.1 hc.1)) ?_) g8
+            omega
+        · rcases g9' with g9' | g9'
+          · left; rw [hsb]; exact g9'
+          · right; omega
 
 /-! ### array items -/
 theorem itemS_decomp (f : Val → List Patch) (isz : Nat) : ∀ (items : List Val) (k pos o' : Nat) (v1 : Val),
@@ -138,13 +172,14 @@ theorem itemS_decomp (f : Val → List Patch) (isz : Nat) : ∀ (items : List Va
     v1 ∈ items ∧ pos ≤ o' ∧ o' + isz ≤ pos + isz * items.length ∧
     ∃ Pre Post, placeS f isz items pos = Pre ++ shift o' (f v1) ++ Post ∧
       ((∀ v ∈ items, Within (f v) 0 isz) → Outside Post o' (o' + isz)) ∧
-      ∀ v2, placeS f isz (setNth items k v2) pos = Pre ++ shift o' (f v2) ++ Post ∧
-        (∀ x ∈ setNth items k v2, x = v2 ∨ x ∈ items)
+      (∀ v2, placeS f isz (setNth items k v2) pos = Pre ++ shift o' (f v2) ++ Post ∧
+        (∀ x ∈ setNth items k v2, x = v2 ∨ x ∈ items)) ∧
+      ((∀ v ∈ items, Within (f v) 0 isz) → Outside Pre o' (o' + isz))
  | [], _, _, _, _, h => by simp [itemS] at h
  | v :: vs, 0, pos, o', v1, h => by
     simp only [itemS, Option.some.injEq, Prod.mk.injEq] at h
     obtain ⟨rfl, rfl⟩ := h
-    refine ⟨List.mem_cons_self, Nat.le_refl _, by rw [List.length_cons, Nat.mul_succ]; omega, [], placeS f isz vs (pos + isz), by simp [placeS], ?_, ?_⟩
+    refine ⟨List.mem_cons_self, Nat.le_refl _, by rw [List.length_cons, Nat.mul_succ]; omega, [], placeS f isz vs (pos + isz), by simp [placeS], ?_, ?_, ?_⟩
     · intro hw
       exact outside_of_within (placeS_within f isz vs (pos + isz) (fun x hx => hw x (List.mem_cons_of_mem _ hx))) (Or.inr (Nat.le_refl _))
     · intro v2
@@ -154,10 +189,15 @@ theorem itemS_decomp (f : Val → List Patch) (isz : Nat) : ∀ (items : List Va
       rcases hx with rfl | hx
       · exact Or.inl rfl
       · exact Or.inr (List.mem_cons_of_mem _ hx)
+    · intro _ p hp; simp at hp
  | v :: vs, k + 1, pos, o', v1, h => by
     simp only [itemS] at h
-    obtain ⟨g1, g2, g3, Pre, Post, g4, g5, g6⟩ := itemS_decomp f isz vs k (pos + isz) o' v1 h
-    refine ⟨List.mem_cons_of_mem _ g1, by omega, by rw [List.length_cons, Nat.mul_succ]; omega, shift pos (f v) ++ Pre, Post, by simp [placeS, g4, List.append_assoc], ?_, ?_⟩
+    obtain ⟨g1, g2, g3, Pre, Post, g4, g5, g6, g7⟩ := itemS_decomp f isz vs k (pos + isz) o' v1 h
+    refine ⟨List.mem_cons_of_mem _ g1, by omega, by rw [List.length_cons, Nat.mul_succ]; omega, shift pos (f v) ++ Pre, Post, by simp [placeS, g4, List.append_assoc], ?_, ?_, ?_⟩
+    rotate_left 2
+    · intro hw
+      exact outside_append (outside_of_within (within_shift (d := pos) (hw v List.mem_cons_self)) (Or.inl (by omega)))
+        (g7 (fun x hx => hw x (List.mem_cons_of_mem _ hx)))
     · intro hw
       exact g5 (fun x hx => hw x (List.mem_cons_of_mem _ hx))
     · intro v2
@@ -176,16 +216,17 @@ theorem itemD_decomp (f : Val → List Patch) (sz : Val → Nat) : ∀ (items : 
     v1 ∈ items ∧ pos ≤ o' ∧ o' + sz v1 ≤ pos + sizesD sz items ∧
     ∃ Pre Post, placeD f sz items pos = Pre ++ shift o' (f v1) ++ Post ∧
       ((∀ v ∈ items, Within (f v) 0 (sz v)) → Outside Post o' (o' + sz v1)) ∧
-      ∀ v2, sz v2 = sz v1 → placeD f sz (setNth items k v2) pos = Pre ++ shift o' (f v2) ++ Post ∧
+      (∀ v2, sz v2 = sz v1 → placeD f sz (setNth items k v2) pos = Pre ++ shift o' (f v2) ++ Post ∧
         offsetsD sz (setNth items k v2) pos = offsetsD sz items pos ∧
         sizesD sz (setNth items k v2) = sizesD sz items ∧
-        (∀ x ∈ setNth items k v2, x = v2 ∨ x ∈ items)
+        (∀ x ∈ setNth items k v2, x = v2 ∨ x ∈ items)) ∧
+      ((∀ v ∈ items, Within (f v) 0 (sz v)) → Outside Pre o' (o' + sz v1))
  | [], _, _, _, _, h => by simp [itemD] at h
  | v :: vs, 0, pos, o', v1, h => by
     simp only [itemD, Option.some.injEq, Prod.mk.injEq] at h
     obtain ⟨rfl, rfl⟩ := h
     have hsl := slot_ge (sz v)
-    refine ⟨List.mem_cons_self, Nat.le_refl _, by simp only [sizesD]; omega, [], placeD f sz vs (pos + slot (sz v)), by simp [placeD], ?_, ?_⟩
+    refine ⟨List.mem_cons_self, Nat.le_refl _, by simp only [sizesD]; omega, [], placeD f sz vs (pos + slot (sz v)), by simp [placeD], ?_, ?_, ?_⟩
     · intro hw
       exact outside_of_within (placeD_within f sz vs (pos + slot (sz v)) (fun x hx => hw x (List.mem_cons_of_mem _ hx))) (Or.inr (by omega))
     · intro v2 hsz
@@ -195,11 +236,16 @@ theorem itemD_decomp (f : Val → List Patch) (sz : Val → Nat) : ∀ (items : 
       rcases hx with rfl | hx
       · exact Or.inl rfl
       · exact Or.inr (List.mem_cons_of_mem _ hx)
+    · intro _ p hp; simp at hp
  | v :: vs, k + 1, pos, o', v1, h => by
     simp only [itemD] at h
     have hsl := slot_ge (sz v)
-    obtain ⟨g1, g2, g3, Pre, Post, g4, g5, g6⟩ := itemD_decomp f sz vs k (pos + slot (sz v)) o' v1 h
-    refine ⟨List.mem_cons_of_mem _ g1, by omega, by simp only [sizesD]; omega, shift pos (f v) ++ Pre, Post, by simp [placeD, g4, List.append_assoc], ?_, ?_⟩
+    obtain ⟨g1, g2, g3, Pre, Post, g4, g5, g6, g7⟩ := itemD_decomp f sz vs k (pos + slot (sz v)) o' v1 h
+    refine ⟨List.mem_cons_of_mem _ g1, by omega, by simp only [sizesD]; omega, shift pos (f v) ++ Pre, Post, by simp [placeD, g4, List.append_assoc], ?_, ?_, ?_⟩
+    rotate_left 2
+    · intro hw
+      exact outside_append (outside_of_within (within_shift (d := pos) (hw v List.mem_cons_self)) (Or.inl (by omega)))
+        (g7 (fun x hx => hw x (List.mem_cons_of_mem _ hx)))
     · intro hw
       exact g5 (fun x hx => hw x (List.mem_cons_of_mem _ hx))
     · intro v2 hsz
@@ -221,9 +267,10 @@ theorem confItems_of_mem (it : Ty) : ∀ (items : List Val), (∀ v ∈ items, C
 def PartDecomp (t : Ty) (v : Val) (k o : Nat) (t' : Ty) (v1 : Val) : Prop :=
   t'.WF ∧ Conf t' v1 ∧ o + vsize t' v1 ≤ vsize t v ∧
   ∃ Pre Post, patchesD t v = Pre ++ shift o (patchesD t' v1) ++ Post ∧ Outside Post o (o + vsize t' v1) ∧
-    ∀ v2, Conf t' v2 → vsize t' v2 = vsize t' v1 →
+    (∀ v2, Conf t' v2 → vsize t' v2 = vsize t' v1 →
       Conf t (setPartV v k v2) ∧ vsize t (setPartV v k v2) = vsize t v ∧
-      patchesD t (setPartV v k v2) = Pre ++ shift o (patchesD t' v2) ++ Post
+      patchesD t (setPartV v k v2) = Pre ++ shift o (patchesD t' v2) ++ Post) ∧
+    Outside Pre o (o + vsize t' v1)
 
 theorem part_struct_decomp (fs : List Ty) (vs : List Val) (k o : Nat) (t' : Ty) (v1 : Val)
     (hw : WFFields fs) (hc : ConfFields fs vs) (h : part (.struct fs) (.struct vs) k = some (o, t', v1)) :
@@ -232,17 +279,22 @@ theorem part_struct_decomp (fs : List Ty) (vs : List Val) (k o : Nat) (t' : Ty) 
   cases hss : ssizeFields fs with
   | some s =>
     simp only [hss] at h
-    obtain ⟨g1, g2, _, g4, Pre, Post, g5, g6, g7⟩ := sPart_decomp fs vs k 0 s o t' v1 hw hc hss h
-    refine ⟨g1, g2, by simp [vsize, hss]; omega, Pre, Post, by simp [patchesD, hss, g5], g6, ?_⟩
+    obtain ⟨g1, g2, _, g4, Pre, Post, g5, g6, g7, g8⟩ := sPart_decomp fs vs k 0 s o t' v1 hw hc hss h
+    refine ⟨g1, g2, by simp [vsize, hss]; omega, Pre, Post, by simp [patchesD, hss, g5], g6, ?_, g8⟩
     intro v2 hc2 _
     obtain ⟨q1, q2⟩ := g7 v2 hc2
     exact ⟨by simpa [setPartV, Conf] using q1, by simp [setPartV, vsize, hss], by simp [setPartV, patchesD, hss, q2]⟩
   | none =>
     simp only [hss] at h
-    obtain ⟨g1, g2, _, g4, Pre, Post, g5, g6, g7⟩ :=
+    obtain ⟨g1, g2, g3, g4, Pre, Post, g5, g6, g7, g8, _⟩ :=
       dPart_decomp fs vs k 8 0 (dynStart fs) (8 + staticBytes fs) o t' v1 hw hc (Nat.le_refl _) (by simp [dynStart]) h
     have hv : ∀ ws, vsize (.struct fs) (.struct ws) = dynStart fs + dynSizes fs ws := by intro ws; simp [vsize, hss]
-    refine ⟨g1, g2, by rw [hv]; exact g4, (0, le 8 (vsize (.struct fs) (.struct vs))) :: Pre, Post, by simp [patchesD, hss, g5], g6, ?_⟩
+    refine ⟨g1, g2, by rw [hv]; exact g4, (0, le 8 (vsize (.struct fs) (.struct vs))) :: Pre, Post, by simp [patchesD, hss, g5], g6, ?_, ?_⟩
+    rotate_left
+    · intro p hp
+      rcases List.mem_cons.mp hp with rfl | hp
+      · simp only [le_length]; left; omega
+      · exact g8 p hp
     intro v2 hc2 hsz
     obtain ⟨q1, q2, q3⟩ := g7 v2 hc2 hsz
     have hv2 : vsize (.struct fs) (.struct (setNth vs k v2)) = vsize (.struct fs) (.struct vs) := by rw [hv, hv, q2]
@@ -284,13 +336,16 @@ theorem part_array_decomp (it : Ty) (shape : List (Option Nat)) (order sh : List
       simp only [ainfo] at h1 hst ⊢
       simp at h1
       simp [h1, hs]
-    obtain ⟨g1, g2, g3, Pre, Post, g4, g5, g6⟩ := itemS_decomp (patchesD it) (ainfo it shape).unit items k 0 o2 w hopt
+    obtain ⟨g1, g2, g3, Pre, Post, g4, g5, g6, g7⟩ := itemS_decomp (patchesD it) (ainfo it shape).unit items k 0 o2 w hopt
     have hcw := confItems_mem it items hci w g1
     have hvw : ∀ x, Conf it x → vsize it x = (ainfo it shape).unit := fun x hx => by rw [hu]; exact conf_ssize it x s hx hs
     have hv : ∀ l : List Val, vsize (.array it shape order) (.arr sh l) = slot ((ainfo it shape).unit * l.length) := by
       intro l; simp [vsize, hst, hdo]
     have hsl := slot_ge ((ainfo it shape).unit * items.length)
-    refine ⟨hwi, hcw, by rw [hv, hvw w hcw]; omega, Pre, Post, ?_, ?_, ?_⟩
+    refine ⟨hwi, hcw, by rw [hv, hvw w hcw]; omega, Pre, Post, ?_, ?_, ?_, ?_⟩
+    rotate_right
+    · rw [hvw w hcw]
+      exact g7 (fun x hx => by have := hitems x hx; rwa [hvw x (confItems_mem it items hci x hx)] at this)
     · simp [patchesD, hss.1, hss.2, g4]
     · rw [hvw w hcw]
       exact g5 (fun x hx => by have := hitems x hx; rwa [hvw x (confItems_mem it items hci x hx)] at this)
@@ -310,7 +365,7 @@ theorem part_array_decomp (it : Ty) (shape : List (Option Nat)) (order sh : List
         simp only [ainfo] at hst; exact Option.isSome_iff_exists.mp hst
       have hu : (ainfo it shape).unit = s := by simp [ainfo, hs]
       have hsf : (ainfo it shape).staticShape = false := by simpa [hst] using hss'
-      obtain ⟨g1, g2, g3, Pre, Post, g4, g5, g6⟩ :=
+      obtain ⟨g1, g2, g3, Pre, Post, g4, g5, g6, g7⟩ :=
         itemS_decomp (patchesD it) (ainfo it shape).unit items k (ainfo it shape).dataOff o2 w hopt
       have hcw := confItems_mem it items hci w g1
       have hvw : ∀ x, Conf it x → vsize it x = (ainfo it shape).unit := fun x hx => by rw [hu]; exact conf_ssize it x s hx hs
@@ -318,7 +373,15 @@ theorem part_array_decomp (it : Ty) (shape : List (Option Nat)) (order sh : List
           slot ((ainfo it shape).dataOff + (ainfo it shape).unit * l.length) := by
         intro l; simp [vsize, hst]
       have hsl := slot_ge ((ainfo it shape).dataOff + (ainfo it shape).unit * items.length)
-      refine ⟨hwi, hcw, by rw [hv, hvw w hcw]; omega, (0, words (vsize (.array it shape order) (.arr sh items) :: (dynDims shape sh ++ (if !(ainfo it shape).staticShape && (ainfo it shape).nd > 1 then getStrides sh order (ainfo it shape).unit else [])))) :: Pre, Post, ?_, ?_, ?_⟩
+      refine ⟨hwi, hcw, by rw [hv, hvw w hcw]; omega, (0, words (vsize (.array it shape order) (.arr sh items) :: (dynDims shape sh ++ (if !(ainfo it shape).staticShape && (ainfo it shape).nd > 1 then getStrides sh order (ainfo it shape).unit else [])))) :: Pre, Post, ?_, ?_, ?_, ?_⟩
+      rotate_right
+      · intro p hp
+        rcases List.mem_cons.mp hp with rfl | hp
+        · simp only
+          rw [header_length it shape order sh _ hm ho hss']
+          left; omega
+        · have := g7 (fun x hx => by have := hitems x hx; rwa [hvw x (confItems_mem it items hci x hx)] at this) p hp
+          rwa [hvw w hcw]
       · simp only [patchesD, hsf, Bool.false_and, Bool.false_eq_true, ↓reduceIte, hst, g4]
         simp
       · rw [hvw w hcw]
@@ -335,14 +398,25 @@ theorem part_array_decomp (it : Ty) (shape : List (Option Nat)) (order sh : List
       · simp [hopt] at h
       simp only [hopt, Option.map_some, Option.some.injEq, Prod.mk.injEq] at h
       obtain ⟨rfl, rfl, rfl⟩ := h
-      obtain ⟨g1, g2, g3, Pre, Post, g4, g5, g6⟩ :=
+      obtain ⟨g1, g2, g3, Pre, Post, g4, g5, g6, g7⟩ :=
         itemD_decomp (patchesD it) (vsize it) items k ((ainfo it shape).dataOff + 8 * items.length) o2 w hopt
       have hcw := confItems_mem it items hci w g1
       have hv : ∀ l : List Val, vsize (.array it shape order) (.arr sh l) =
           slot ((ainfo it shape).dataOff + 8 * l.length + sizesD (vsize it) l) := by
         intro l; simp [vsize, hst]
       have hsl := slot_ge ((ainfo it shape).dataOff + 8 * items.length + sizesD (vsize it) items)
-      refine ⟨hwi, hcw, by rw [hv]; omega, (0, words (vsize (.array it shape order) (.arr sh items) :: (dynDims shape sh ++ (if !(ainfo it shape).staticShape && (ainfo it shape).nd > 1 then getStrides sh order (ainfo it shape).unit else [])))) :: ((ainfo it shape).dataOff, words (offsetsD (vsize it) items ((ainfo it shape).dataOff + 8 * items.length))) :: Pre, Post, ?_, g5 hitems, ?_⟩
+      refine ⟨hwi, hcw, by rw [hv]; omega, (0, words (vsize (.array it shape order) (.arr sh items) :: (dynDims shape sh ++ (if !(ainfo it shape).staticShape && (ainfo it shape).nd > 1 then getStrides sh order (ainfo it shape).unit else [])))) :: ((ainfo it shape).dataOff, words (offsetsD (vsize it) items ((ainfo it shape).dataOff + 8 * items.length))) :: Pre, Post, ?_, g5 hitems, ?_, ?_⟩
+      rotate_right
+      · intro p hp
+        rcases List.mem_cons.mp hp with rfl | hp
+        · simp only
+          rw [header_length it shape order sh _ hm ho hss']
+          left; omega
+        · rcases List.mem_cons.mp hp with rfl | hp
+          · simp only
+            rw [words_length, offsetsD_length]
+            left; omega
+          · exact g7 hitems p hp
       · simp only [patchesD, Bool.false_eq_true, ↓reduceIte, hst, g4]
         simp
       · intro v2 hc2 hsz
@@ -400,7 +474,7 @@ theorem leaf_decomp : ∀ (p : List Nat) (t : Ty) (v : Val) (lo w b : Nat), t.WF
     · simp [hleaf] at h
     simp only [hleaf, Option.map_some, Option.some.injEq, Prod.mk.injEq] at h
     obtain ⟨rfl, rfl⟩ := h
-    obtain ⟨g1, g2, g3, Pre, Post, g4, g5, g6⟩ := part_decomp t v k o t' v1 hw hc hpart
+    obtain ⟨g1, g2, g3, Pre, Post, g4, g5, g6, _⟩ := part_decomp t v k o t' v1 hw hc hpart
     obtain ⟨v1', A, B, x, i1, i2, i3, i4, i5, i6, i7, i8⟩ := leaf_decomp p t' v1 lo' w' b g1 g2 hleaf hb
     obtain ⟨q1, q2, q3⟩ := g6 v1' i2 i3
     refine ⟨setPartV v k v1', Pre ++ shift o A, shift o B ++ Post, x, by simp [updAt, hpart, i1], q1, q2, ?_, ?_, i6, ?_, by omega⟩
@@ -509,7 +583,7 @@ theorem part_agree (t : Ty) (v : Val) (hw : t.WF) (hc : Conf t v) (k o : Nat) (t
     t'.WF ∧ Conf t' v1 ∧ o + vsize t' v1 ≤ vsize t v ∧
     ∃ m1 : Mem, m1.length = m0.length ∧
       Agree m' (apply (shift (off + o) (patchesD t' v1)) m1) (off + o) (off + o + vsize t' v1) := by
-  obtain ⟨g1, g2, g3, Pre, Post, g4, g5, _⟩ := part_decomp t v k o t' v1 hw hc hp
+  obtain ⟨g1, g2, g3, Pre, Post, g4, g5, _, _⟩ := part_decomp t v k o t' v1 hw hc hp
   refine ⟨g1, g2, g3, apply (shift off Pre) m0, ?_, ?_⟩
   · apply apply_length
     intro q hq
